@@ -343,8 +343,7 @@ impl<Aux> Vm<'_, Aux> {
             &*program
         };
         let len = program.bytecode.len();
-        // FIXME: should store in VM
-        let mut remaining_iters = self.max_instr;
+        // the budget is shared by all nested runs (script functions called by native functions)
         let bytecode_ptr = program.bytecode.as_ptr();
         let payload_to_error =
             |err,
@@ -363,8 +362,8 @@ impl<Aux> Vm<'_, Aux> {
             };
 
         while *instr_ptr < len {
-            remaining_iters = remaining_iters.saturating_sub(1);
-            if remaining_iters == 0 {
+            self.remaining_iters = self.remaining_iters.saturating_sub(1);
+            if self.remaining_iters == 0 {
                 return Err(payload_to_error(
                     ExecutionErrorPayload::Timeout,
                     *instr_ptr,
